@@ -287,6 +287,42 @@ Definition call_spec (trig : list name) (s : sig) (items : list citem) : outcome
   | None => TypeErr
   end.
 
+(* =====================================================================================================
+   definition time: from the `def` statement to the signature EvalFunc.call works with
+   ===================================================================================================== *)
+(* a default slot of the `arguments` node: no expression, or an expression; [truthy] is the truthiness of the VALUE
+   the expression evaluates to (None, False, 0, "", [] ... are falsy) *)
+Inductive defnode := NoDefault | DefaultExpr (truthy : bool).
+
+Record fdef := {
+  f_posonly : list name;
+  f_args : list name;
+  f_defaults : list bool;                   (* args.defaults: one expression per default, with the value's truthiness *)
+  f_vararg : option name;
+  f_kwonly : list (name * defnode);         (* args.kwonlyargs zipped with args.kw_defaults *)
+  f_kwarg : option name
+}.
+
+(* EvalFunc.eval_defaults l.353-361:  defaults = [eval(e) for e in args.defaults];
+   kw_defaults.append({"ok": bool(val), "val": ...}) for val in args.kw_defaults, where `val` is the AST node of the
+   default expression or None: a node object is truthy whatever its value is (T1 checks this shape on every run) *)
+Definition ps_node_truth (d : defnode) : bool := match d with NoDefault => false | DefaultExpr _ => true end.
+Definition ps_sig_of_def (f : fdef) : sig :=
+  {| s_posonly := f_posonly f; s_args := f_args f; s_ndef := length (f_defaults f); s_vararg := f_vararg f;
+     s_kwonly := map (fun p => (fst p, ps_node_truth (snd p))) (f_kwonly f); s_kwarg := f_kwarg f |}.
+
+(* reference (Language Reference 8.7 "Function definitions"): a parameter has a default value iff it is written
+   `parameter = expression`; what the expression evaluates to is irrelevant *)
+Fixpoint py_kwonly_of_def (l : list (name * defnode)) : list (name * bool) :=
+  match l with
+  | [] => []
+  | (n, NoDefault) :: r => (n, false) :: py_kwonly_of_def r
+  | (n, DefaultExpr _) :: r => (n, true) :: py_kwonly_of_def r
+  end.
+Definition py_sig_of_def (f : fdef) : sig :=
+  {| s_posonly := f_posonly f; s_args := f_args f; s_ndef := length (f_defaults f); s_vararg := f_vararg f;
+     s_kwonly := py_kwonly_of_def (f_kwonly f); s_kwarg := f_kwarg f |}.
+
 (* ---------- signatures CPython's compiler accepts ---------- *)
 Definition sig_names (s : sig) : list name :=
   param_names s ++ match s_vararg s with Some v => [v] | None => [] end
